@@ -46,6 +46,22 @@ def consts():
     return _consts
 
 
+_fast = None
+def _fast_tables():
+    """FAST_PARTIAL_ROUND_W_HATS, FAST_PARTIAL_ROUND_VS (22 x 11) and M_00 from the source tables"""
+    global _fast
+    if _fast is None:
+        pg = _strip_comments(open(os.path.join(REPO, "plonky2/src/hash/poseidon_goldilocks.rs")).read())
+        wh = _array(pg, "FAST_PARTIAL_ROUND_W_HATS")
+        vs = _array(pg, "FAST_PARTIAL_ROUND_VS")
+        circ = _array(pg, "MDS_MATRIX_CIRC")
+        diag = _array(pg, "MDS_MATRIX_DIAG")
+        if len(wh) != 242 or len(vs) != 242:
+            raise RuntimeError("unexpected fast-table sizes %d %d" % (len(wh), len(vs)))
+        _fast = ([wh[11 * i:11 * i + 11] for i in range(22)], [vs[11 * i:11 * i + 11] for i in range(22)], circ[0] + diag[0])
+    return _fast
+
+
 def mds_mul(mds, s):
     return [sum(mds[r][c] * s[c] for c in range(12)) % P for r in range(12)]
 
@@ -187,6 +203,13 @@ def check(op, args, res):
     if op == "mds_layer":
         _, mds = consts()
         return _cmp(r, mds_mul(mds, [x % P for x in a]), "MDS layer")
+    if op == "mds_partial_fast":
+        # d = M_00 s0 + sum_i W_HATS[round][i-1] s_i ; result_i = VS[round][i-1] s0 + s_i   (i = 1..11), in the field
+        rnd, st = a[0], [x % P for x in a[1:]]
+        wh, vs, m00 = _fast_tables()
+        want = [(m00 * st[0] + sum(wh[rnd][i - 1] * st[i] for i in range(1, 12))) % P] + \
+               [(vs[rnd][i - 1] * st[0] + st[i]) % P for i in range(1, 12)]
+        return _cmp(r, want, "fast partial MDS layer, round %d" % rnd)
     if op == "partial_rounds":
         # fast partial rounds = naive partial rounds (rounds 4..25)
         return _cmp(r, partial_rounds(a), "partial rounds")
